@@ -257,4 +257,25 @@ def mergeLayers (defs : List LayerDef) (top : List Nat) (n : Nat) : List Ev × B
   let layers := sortLayers (top.filterMap (mkLayer defs))
   runM defs n (sumW (layerW defs) layers + 1) { layers := layers }
 
+/-- The layer list `Highlighter::highlight` starts the loop with after the repair
+(`fixes/C17-initial-layer-order.diff`, committed): the first layer, then `insert_layer` for each
+further layer, then `sort_layers`. -/
+def initLayersR (defs : List LayerDef) (top : List Nat) : List MLayer :=
+  match top.filterMap (mkLayer defs) with
+  | [] => []
+  | l0 :: r => sortLayers (r.foldl insertLayer [l0])
+
+/-- `mergeLayers` with the repaired set-up. -/
+def mergeLayersR (defs : List LayerDef) (top : List Nat) (n : Nat) : List Ev × Bool :=
+  let layers := initLayersR defs top
+  runM defs n (sumW (layerW defs) layers + 1) { layers := layers }
+
+/-- The state after `k` iterations of the loop (`none` once the iterator has finished). -/
+def iterM (defs : List LayerDef) (n : Nat) : Nat → MSt → Option MSt
+  | 0, st => some st
+  | k + 1, st =>
+    match stepM defs n st with
+    | .done _ => none
+    | .more _ st' => iterM defs n k st'
+
 end TsVerif.C17
